@@ -132,3 +132,24 @@ func Hostile(r *core.Rng) string {
 		return Soup(r, HTMLAtoms, 1+r.Intn(6))
 	}
 }
+
+// BoundaryLens are lengths around powers of two and common buffer sizes, for inputs in which
+// the interesting part sits at a particular offset.
+func BoundaryLens() []int {
+	var out []int
+	for n := 0; n <= 70; n++ {
+		out = append(out, n)
+	}
+	for _, p := range []int{127, 255, 511, 1023, 2047, 4095, 8191, 16383, 32767, 65535} {
+		out = append(out, p-1, p, p+1, p+2)
+	}
+	return out
+}
+
+// Pad returns n bytes made of repetitions of unit.
+func Pad(unit string, n int) string {
+	if unit == "" || n <= 0 {
+		return ""
+	}
+	return strings.Repeat(unit, n/len(unit)+1)[:n]
+}
